@@ -6,6 +6,7 @@ from concurrent.futures import ThreadPoolExecutor
 
 from . import smt
 from .vc import smt_text
+from .inst import variants
 
 
 class ObResult:
@@ -25,7 +26,7 @@ class ObResult:
         return '%s:L%s:%s:%s' % (self.func, self.ob.lineno, self.ob.kind, h)
 
 
-def discharge(fresults, timeout=20, workers=16, order=('z3', 'cvc5')):
+def discharge(fresults, timeout=20, workers=8, order=('z3', 'cvc5')):
     """fresults: list of FunctionResult. returns (list of ObResult, list of path feasibility info)"""
     jobs = []
     cache = {}
@@ -42,7 +43,7 @@ def discharge(fresults, timeout=20, workers=16, order=('z3', 'cvc5')):
         if h in cache:
             r = cache[h]
         else:
-            r = smt.solve_text(text, timeout, order)
+            r = smt.solve_text(text, timeout, order, alt_text=variants(text))
             cache[h] = r
         return i, ObResult(key, pi, ob, r.verdict, r.solver, r.time, r.output, text)
 
